@@ -531,6 +531,14 @@ def gen_structured(rng, with_macros=True):
         blocks.append(Node("TYPE @u\n@t"))
     if rng.random() < 0.5:
         blocks.append(Node("ENUM @e\n[1, 2]"))
+        # further enums and types under names in no particular (alphabetical) order: the sections of the
+        # catalog list them in the order of the document
+        if rng.random() < 0.4:
+            for nm in rng.sample(["@zeta", "@alpha", "@mid", "@Beta", "@a9"], rng.randint(1, 3)):
+                blocks.append(Node("ENUM %s // enum %s\n[\"%s\", 2]" % (nm, nm[1:], nm[1:])))
+        if rng.random() < 0.3:
+            for nm in rng.sample(["@ztype", "@atype", "@mtype"], rng.randint(1, 2)):
+                blocks.append(Node("TYPE %s\n{\"k\": 1}" % nm))
     used = []
     for i in range(rng.randint(1, 3)):
         r = rng.random()
